@@ -15,6 +15,7 @@
 (*   - its point x* has a *documented* objective (ObjDoc, written from G, b, l1, l2 directly)     *)
 (*     <= that of every feasible lattice neighbour x* + d/den                                    *)
 (*     and of every integer point of the box {0..BoxMax}^n;                                       *)
+(*   - the same for the lower bound x >= epsilon (hals_nnls / fista option epsilon), LowerBoundOK; *)
 (*   - the unconstrained solution (what admm(n_const=None) documents) satisfies A x = c exactly   *)
 (*     and coincides with x* whenever it is non-negative.                                         *)
 EXTENDS Integers, Sequences, FiniteSets, TLC
@@ -98,15 +99,42 @@ Solve(pr) == LET A == AMat(pr)
 \* the unconstrained minimiser (all coordinates free)
 SolveFree(pr) == FaceSol(AMat(pr), CVec(pr), 1..Len(pr.G))
 
+\* Lower bound epsilon = ep/eq > 0 instead of 0 (hals_nnls documents "min_{V >= epsilon}", fista "the solution is
+\* greater than epsilon instead of zero"):  x = epsilon + y, y >= 0 minimises 1/2 y^T A y - (c - epsilon A 1)^T y, so
+\* w = eq * y is the NNLS solution for (A, eq c - ep A 1) and  x = (ep w.den + w.num) / (eq w.den).
+CVecLB(pr, ep, eq) == LET A == AMat(pr)
+                          c == CVec(pr) IN [i \in 1..Len(A) |-> eq * c[i] - ep * SumN(A[i])]
+SolveLB(pr, ep, eq) ==
+    LET A == AMat(pr)
+        c2 == CVecLB(pr, ep, eq)
+        w == FaceSol(A, c2, CHOOSE P \in SUBSET (1..Len(A)) : IsKKT(A, c2, P))
+    IN  [num |-> [i \in 1..Len(A) |-> ep * w.den + w.num[i]], den |-> eq * w.den]
+
 \* The documented objective itself (not the integer form A, c):
 \*   2 q den^2 (1/2 x^T G x - b^T x + l1 sum(x) + l2 |x|^2)   for x = num/den, l1 = p1/q, l2 = p2/q
 ObjDoc(pr, num, den) ==
     pr.q * DotN(num, MatVec(pr.G, num)) - 2 * pr.q * den * DotN(pr.b, num)
       + 2 * pr.p1 * den * SumN(num) + 2 * pr.p2 * DotN(num, num)
 
+\* the epsilon-bounded minimiser: unique KKT set of the shifted problem, feasible, and its documented objective is
+\* <= that of every lattice neighbour and integer box point that respects the bound
+EpsSet == {<<1, 2>>}                   \* epsilon = 1/2 (any positive value is a documented lower bound)
+LowerBoundOK(pr, ep, eq) ==
+    LET n == Len(pr.G) IN
+    pr.G \notin ExtraG2 =>
+    \A A \in {AMat(pr)} : \A c2 \in {CVecLB(pr, ep, eq)} :
+    /\ Cardinality(KKTSets(A, c2)) = 1
+    /\ \A x \in {SolveLB(pr, ep, eq)} : \A ox \in {ObjDoc(pr, x.num, x.den)} :
+        /\ x.den > 0 /\ \A i \in 1..n : x.num[i] * eq >= ep * x.den
+        /\ \A d \in [1..n -> {-1, 0, 1}] :
+             \A y \in {[i \in 1..n |-> x.num[i] + d[i]]} :
+                (\A i \in 1..n : y[i] * eq >= ep * x.den) => ox <= ObjDoc(pr, y, x.den)
+        /\ \A y0 \in [1..n -> 1..BoxMax] : ox <= ObjDoc(pr, [i \in 1..n |-> y0[i] * x.den], x.den)
+
 ProblemOK(pr) ==
     LET n == Len(pr.G) IN
     \A A \in {AMat(pr)} : \A c \in {CVec(pr)} :
+    /\ \A e \in EpsSet : LowerBoundOK(pr, e[1], e[2])
     /\ IsSPD(pr.G) /\ IsSPD(A)
     /\ \A K \in {KKTSets(A, c)} :
         /\ Cardinality(K) = 1
